@@ -100,7 +100,8 @@ def run_ob(args):
         tz_of = getattr(mod, "scenario_tz", None)
 
         def replayer(sc):
-            full = dict(property=prop, ob=obd["name"], fn=obd["fn"], params=obd["params"], tier=tier, **sc)
+            sc = dict(sc)
+            full = dict(property=prop, ob=obd["name"], fn=obd["fn"], params={**obd["params"], **sc.pop("params_extra", {})}, tier=tier, **sc)
             full["tz"] = tz_of(full) if tz_of else "UTC"
             path = os.path.join(rdir, _slug(obd["name"]) + "--" + _slug(sc["label"]) + ".json")
             with open(path, "w") as f:
@@ -155,6 +156,10 @@ def run_ob(args):
         except core.Unsupported as u:
             res["status"] = "unsupported"
             res["error"] = "".join(traceback.format_exception_only(type(u), u)).strip() + " @ " + "".join(traceback.format_tb(u.__traceback__)[-3:])[-600:]
+
+        fin = getattr(mod, "finalize", None)
+        if fin is not None and res["status"] == "ok":
+            fin(col, obd, replayer)     # cross-path obligations (e.g. C07: max over all paths)
 
         # ---- pinned self-validation of the encoding against a plain float run of the real code
         sv = None
